@@ -145,3 +145,53 @@ PROPS["C20"] = {
                     "values are byte strings; nil handler registration (logged and ignored by the code) is not generated",
                     "the dependency source is github.com/multiversx/concurrent-map v0.1.4 in the module cache, not under /repo: the anchors' fingerprint does not cover it"],
 }
+
+PROPS["C15"] = {
+  "runs": [{"component": "lru", "labels": None, "n_quick": 2000, "n_thorough": 20000}],
+  "anchors": ["lrucache/lrucache.go", "lrucache/simpleLRUCacheAdapter.go", "lrucache/capacity/capacityLRUCache.go"],
+  "exhaustive_claim": True,
+  "rule": "exhaustive: every op sequence of length 4 (quick) / 5 (thorough) over 3 alphabets of 10 op instances on keys a,b,c "
+          "(sized cap 2/100 B: puts of 40/90/1/-1 B, HasOrAdd incl. negative, Get, Remove; plain LRU cap 2: puts, HasOrAdd, Get, Remove, Clear; "
+          "sized cap 3/100 B with a handler registered: puts incl. 150 B, HasOrAdd, Get, Remove, Clear, Register, UnRegister); observables after every op, so every prefix is covered. "
+          "random: kind {plain, sized, sized}, capacity {1,2,3,5}, byte capacity {1,30,100,2^40}, 3-6 keys incl. the prefix pair a/aa, values {v1,v2,w,empty}, "
+          "sizes {-1,0,1,40,90,150,cap+1}, 20-60 ops: Put 32%, HasOrAdd 15%, Get 13%, Peek 6%, Has 6%, Remove 9%, Clear 2%, RegisterHandler 10% (nil func 1/10), UnRegisterHandler 7% over 3 ids. "
+          "non-trivial = hits eviction (by count / by bytes / of several), overwrite-grow/shrink, overwrite-grow-evicts, rejected negative size, oversized single item, Get refresh, "
+          "HasOrAdd present/inserting/rejected, handler fired (one/several/on a rejected Put); distinct = distinct canonical op sequences.",
+  "explanation": "Props/C15.v: refinement of the reference LRU (LruSpec.v) by the transcribed capacityLRU and hashicorp models over all histories, capacities >= 1, byte capacities >= 1, all sizes; "
+                 "the models are tied to /repo by the differential run on all labelled observables; monitors compare the implementation with a Go reference LRU written from the property text.",
+  "assumptions": ["sizes and their running sum stay below 2^63 (int64 never wraps; the model uses Z)",
+                  "handlers run as goroutines: the harness waits until the expected number of invocations arrived (3 s time-out) and compares the multiset per operation",
+                  "SizeInBytesContained is claimed for the sized variant only (simpleLRUCacheAdapter returns 0 by construction)",
+                  "a Put whose negative size is rejected still starts the handlers (lruCache.Put); C15 constrains successful insertions only - recorded as situation handler-fired-on-rejected-put"],
+}
+PROPS["C17"] = {
+  "runs": [{"component": "adapter", "labels": {1, 2, 3, 4, 5, 6, 10, 11, 12, 13, 14, 15}, "n_quick": 2000, "n_thorough": 20000}],
+  "anchors": ["storageCacherAdapter/storageCacherAdapter.go", "lrucache/capacity/capacityLRUCache.go", "memorydb/memorydb.go"],
+  "exhaustive_claim": True,
+  "rule": "exhaustive: every op sequence of length 4 (quick) / 5 (thorough) over 10 op instances on keys a,b,c (Put 40/40/40/90/150/0 B, Get a, Get b, Has c, Peek a) for (cap,bytes) in {(2,100),(1,50),(3,100)}. "
+          "random: capacity {1,2,3,5}, byte capacity {1,50,100,2^40}, 3-6 keys each bound to one value (key e bound to the empty value in 1/6 of the histories), sizes {0,10,40,90,150}, 15-50 ops: Put 55-65%, Get 15%, Has 10%, Peek 10%; "
+          "1/8 of the histories add size -1 (rejected, outside the domain), 1/6 add Remove/Clear (outside the domain; the monitor forgets those keys). "
+          "non-trivial = spill (one / several), re-put grow/shrink, re-put-larger-spills, re-put of a spilled key, oversized single item, get-from-persister, empty-value-skipped, rejected negative size.",
+  "explanation": "Props/C17.v over the transcribed adapter + capacityLRU + map persister; differential run on return values, memory tier (Keys/Len/bytes/Peek), persister contents read directly, Has; "
+                 "monitors: every key put so far Has + found with its value in one of the tiers after every op, Get ops and a final Get sweep, spill-before-drop against the persister contents, Put flag against entries that left memory and against recorded persister writes.",
+  "assumptions": ["values are non-empty byte strings (an empty serialisation is skipped by design: len(evictedValBytes)==0)", "sizes >= 0; each key bound to one immutable value",
+                  "persister open and never failing (memorydb); values implement SerializedStoredData, the marshaller is never reached",
+                  "Remove/Clear/Close and adapter.Len/Keys (numValuesInStorage) are modelled (Close is not) but are outside C17"],
+}
+PROPS["C12"] = {
+    "runs": [{"component": "immunity", "labels": {1, 2, 3, 4, 5, 6, 9, 16, 20, 21}, "n_quick": 2000, "n_thorough": 20000}],
+    "anchors": ["immunitycache/cache.go", "immunitycache/chunk.go", "immunitycache/cacheItem.go", "immunitycache/config.go", "txcache/crossTxCache.go"],
+    "exhaustive_claim": True,
+    "rule": "exhaustive: one chunk (MaxNumItems 4, MaxNumBytes 4, sizes a=2 b=2 c=3 so byte capacity is reached by two items), every sequence of exactly 5 "
+            "(quick; 6 thorough) operations over {add a, add b, add c, immunize a, immunize b, remove a, remove b, clear} with batch 1 on ImmunityCache, and of exactly 4 "
+            "(5 thorough, + immunize c) with batch 2 on CrossTxCache; every shorter sequence is a checked prefix. random: both kinds, chunks {1,2,4}, MaxNumItems {4,5,8}, "
+            "MaxNumBytes {4..100, 2^20}, batch {1,2,3}(x chunks; 1/8 of configs violate the per-chunk guard), 6-10 keys (one empty, one with bytes >= 0x80), sizes "
+            "{0,1,2,3,10,>capacity}, 15-60 ops, immunisation before and after insertion, gate-tripping key lists, 1/60 configs rejected by the constructor. "
+            "non-trivial = at least one of: eviction, refused add, duplicate add, future immunity applied, immunise resident, remove withdraws immunity, gate refusal, clear.",
+    "explanation": "Theorems quantify over all histories, all configs accepted by Verify, sizes >= 0; CrossTxCache is the same state machine (argument mapping in the harness).",
+    "assumptions": ["item sizes >= 0 (the clamp max(numBytes,0) is modelled; proved inactive for sizes >= 0)",
+                    "payloads are byte strings (kind 1: WrappedTransaction{Tx: &transaction.Transaction{Data: payload}})",
+                    "map iteration order is canonicalised by sorting; groupKeysByChunk's group order is irrelevant (chunks independent)",
+                    "hospitality / log counters are not modelled (not observable through the API)"],
+}
+PROPS["C13"] = dict(PROPS["C12"], runs=[{"component": "immunity", "labels": {1, 2, 3, 4, 5, 6, 9, 10, 11, 12, 13, 14, 15, 16, 17, 20, 21}, "n_quick": 2000, "n_thorough": 20000}])
